@@ -61,7 +61,8 @@ def choice_witness(texts, weights, k, allowed, why):
     n = len(weights)
     return {"kind": "choice", "args": [enc("unit"), enc(list(range(n))), enc(list(weights))], "kwargs": {},
             "position_k": int(k), "expected": {"index_in": sorted(allowed)},
-            "why": why, "plain": "weights %s, hash position k=%d (u=%r)" % (texts, k, k / 2 ** 32)}
+            "why": why, "plain": "weights %s, hash position k=%d (u=%r)" % (
+                texts if len(texts) <= 12 else "%s ... (%d weights)" % (texts[:8], len(texts)), k, k / 2 ** 32)}
 
 
 def allowed_indices(K, texts, k):
@@ -76,6 +77,10 @@ def allowed_indices(K, texts, k):
 
 def check_vector(item):
     texts, as_float, timeout_ms, exactness, part = item
+    fast = exactness == "fast"      # vectors of code-derived sizes: short per-query budget, stop at the first witnesses
+    if fast:
+        exactness = False
+        timeout_ms = min(timeout_ms, 15000)
     pj, pm = part
     common.setup_path()
     tally = Tally()
@@ -117,8 +122,12 @@ def check_vector(item):
         if i % pm != pj:
             continue
 
+        if fast and len(out["witnesses"]) >= 2:
+            leaves = None
+            break
+
         def ask(extra, label, sample=False):
-            r, m = common.check(tally, list(p.conds) + extra, timeout_ms, label=label, keep_sample=sample)
+            r, m = common.check(tally, list(p.conds) + extra, timeout_ms, label=label, keep_sample=sample, _retry=not fast)
             if r == "unknown":
                 out["status"] = "inconclusive"
                 out["note"] = "unknown on %s (%s)" % (label, texts)
@@ -174,7 +183,7 @@ def check_vector(item):
                 out["exact_boundaries"] += 1
             elif r == "sat":
                 out["inexact_boundaries"] += 1
-    for i in pos:
+    for i in (pos if leaves is not None else []):
         if pj == 0 and i not in leaves and K[i + 1] - K[i] >= 3:
             kv = K[i] + 1
             out["witnesses"].append(choice_witness(texts, weights, kv, [i],
@@ -484,6 +493,18 @@ def main(tier):
         if all("." not in t for t in v):
             for part in parts(v):
                 items.append((v, False, timeout_ms, False, part))   # ints passed as ints (direct API use)
+    # sizes read off the implementation: vectors just below, at and above every group-count threshold the choice function
+    # branches on (none on the pinned tree; a fast path for "large" populations would show up here)
+    from vf.props import sizes
+    derived = [s_ for s_ in sizes.sizes_around() if s_ not in {len(v) for v in fam}]
+    for s_ in derived:
+        shapes = [[str(i % 7 + 1) for i in range(s_)], [("0" if i % 2 else "3") for i in range(s_)] if s_ > 1 else ["3"]]
+        if tier == "thorough":
+            shapes.append([("0.1" if i % 3 else "2.5") for i in range(s_)])
+        for v in shapes:
+            m = min(8, max(1, (len(v) + 3) // 4))
+            for j in range(m):
+                items.append((v, True, timeout_ms, "fast", (j, m)))
     for p in alignment_programs():
         items.append(("align", p, timeout_ms))
     for n in ([1, 2, 3, 4] if tier == "quick" else [1, 2, 3, 4, 5, 6, 8]):
